@@ -134,6 +134,10 @@ func (s *Swarm[T]) Close() error {
 // getFullAddr returns a p2pke.Channel which matches the full Addr addr.
 func (s *Swarm[T]) getFullAddr(ctx context.Context, addr Addr[T]) (*p2pke.Channel, error) {
 	for {
+		if s.ctx.Err() != nil {
+			// closed: a channel created now would never be closed, and its messages go nowhere.
+			return nil, p2p.ErrClosed
+		}
 		c := s.store.getOrCreate(s.keyForAddr(addr.Addr), func() *channelState {
 			return &channelState{
 				CreatedAt: time.Now(),
